@@ -102,6 +102,9 @@ class Ctx:
         cmd += [os.path.join(self.specdir, module + ".tla")]
         env = dict(os.environ)
         env["TLCX_HEAP"] = "-Xmx" + heap
+        jt = os.path.join(self.scratch, "jtmp")          # TLC leaves an empty tlc-<n> directory per run in java.io.tmpdir
+        os.makedirs(jt, exist_ok=True)
+        env["TLCX_TMP"] = jt
         t0 = time.time()
         try:
             p = subprocess.run(cmd, cwd=self.specdir, env=env, stdout=subprocess.PIPE, stderr=subprocess.STDOUT,
